@@ -10,3 +10,5 @@ func verifCount(name string, t *table) {}
 func verifPoint(name string) {}
 
 func verifRead(t *table, offset wal.Offset) {}
+
+func verifReadInit(t *table, offset wal.Offset) {}
